@@ -23,7 +23,29 @@ func strSchema(format string, minLen int64) spec.Schema {
 func genMixedPair() (*spec.Schema, interface{}) {
 	s := spec.Schema{}
 	var d interface{}
-	switch verifChoose(8) {
+	switch verifChoose(8 + 2*verifTier()) {
+	case 8: // thorough: patternProperties next to dependencies
+		s.PatternProperties = map[string]spec.Schema{"^a": genLeafSmall(), "b$": strSchema("date", -1)}
+		s.Dependencies = spec.Dependencies{"ab": spec.SchemaOrStringArray{Property: []string{"c"}}}
+		s.MinProperties = ptrI(verifPickInt(0, 2))
+		obj := map[string]interface{}{}
+		for _, k := range []string{"ab", "b", "c"} {
+			if verifBool() {
+				obj[k] = genObjValue()
+			}
+		}
+		return &s, obj
+	case 9: // thorough: tuple of three with schema-valued additionalItems and uniqueItems
+		s.Items = &spec.SchemaOrArray{Schemas: []spec.Schema{genLeafSmall(), strSchema("", 1), genLeafSmall()}}
+		l := genLeafSmall()
+		s.AdditionalItems = &spec.SchemaOrBool{Allows: true, Schema: &l}
+		s.UniqueItems = verifBool()
+		n := verifChoose(6)
+		arr := make([]interface{}, 0, n)
+		for i := 0; i < n; i++ {
+			arr = append(arr, genObjValue())
+		}
+		return &s, arr
 	case 7: // no schema at all: nothing to validate
 		return nil, genObjValue()
 	case 0: // numbers
@@ -189,6 +211,12 @@ func HarnessC04History() {
 	fresh := runFresh(s2, d2, reg)
 	verifAssert(verifIff(got.valid, fresh.valid), "second-call-verdict-equals-fresh")
 	verifAssert(verifSameSet(got.errs, fresh.errs), "second-call-errors-equal-fresh")
+	if verifTier() > 0 { // thorough: a third operation, through a recycling validator object
+		s3, d3 := genProbePair()
+		got3 := outcomeOfResult(NewSchemaValidator(s3, nil, "", reg, WithRecycleValidators(true)).Validate(d3))
+		fresh3 := runFresh(s3, d3, reg)
+		verifAssert(sameOutcome(got3, fresh3), "third-call-outcome-equals-fresh")
+	}
 	verifObserve("valid", fresh.valid)
 	verifReach("end")
 }
@@ -204,6 +232,12 @@ func HarnessC08Stateless() {
 	d2 := []interface{}{nil, "ab", 1.0, map[string]interface{}{"a": 3.0}, []interface{}{"a", 3.0}}[verifChoose(5)]
 	r2 := outcomeOfResult(v.Validate(d2))
 	r1b := outcomeOfResult(v.Validate(d1))
+	if verifTier() > 0 { // thorough: a third value, then the second again
+		d3 := []interface{}{"a", 3.0, map[string]interface{}{}}[verifChoose(3)]
+		r3 := outcomeOfResult(v.Validate(d3))
+		verifAssert(sameOutcome(r3, runFresh(s, d3, reg)), "third-use-equals-fresh")
+		verifAssert(sameOutcome(outcomeOfResult(v.Validate(d2)), r2), "repeat-of-second-equals-second")
+	}
 	f1 := runFresh(s, d1, reg)
 	f2 := runFresh(s, d2, reg)
 	verifAssert(sameOutcome(r1, f1), "first-use-equals-fresh")
@@ -345,7 +379,23 @@ func HarnessC17Location() {
 		}
 		return root + "." + p
 	}
-	switch verifChoose(8) {
+	switch verifChoose(8 + 2*verifTier()) {
+	case 8: // thorough: three levels: property -> tuple position -> additionalProperties member
+		deep := spec.Schema{}
+		deep.AdditionalProperties = &spec.SchemaOrBool{Allows: true, Schema: &leaf}
+		tup := spec.Schema{}
+		tup.Items = &spec.SchemaOrArray{Schemas: []spec.Schema{{}, deep}}
+		s.Properties = map[string]spec.Schema{"t": tup}
+		d = map[string]interface{}{"t": []interface{}{good, map[string]interface{}{"k": bad, "j": good}}}
+		want = join("t.1.k")
+	case 9: // thorough: pattern property -> property -> missing required member
+		inner := spec.Schema{}
+		inner.Required = []string{"need"}
+		mid := spec.Schema{}
+		mid.Properties = map[string]spec.Schema{"o": inner}
+		s.PatternProperties = map[string]spec.Schema{"^p": mid}
+		d = map[string]interface{}{"p9": map[string]interface{}{"o": map[string]interface{}{"x": good}}}
+		want = join("p9.o.need")
 	case 0: // properties
 		s.Properties = map[string]spec.Schema{"x": leaf, "y": leaf}
 		d = map[string]interface{}{"x": good, "y": bad}
